@@ -20,6 +20,8 @@ One integer decides everything: VERIF_SEED -> per-run seed -> random.Random ->
 scenario.  Logging never draws from a PRNG and never reads a clock.
 """
 import concurrent.futures as cf
+import contextlib
+import io
 import faulthandler
 import hashlib
 import importlib
@@ -136,7 +138,8 @@ def execute_scenario(mod, sc):
     old_handler = signal.signal(signal.SIGALRM, _on_alarm)
     signal.alarm(limit)
     try:
-        with entropy.active(entropy.World(int(sc.get("entropy_world", 0)))):
+        # stray debug prints in the code under test must not reach the check's stdout
+        with entropy.active(entropy.World(int(sc.get("entropy_world", 0)))), contextlib.redirect_stdout(io.StringIO()):
             out = mod.execute(sc)
     finally:
         signal.alarm(0)
